@@ -31,9 +31,12 @@ using babylon::SwissString;
 using babylon::SwissVector;
 namespace pbio = ::google::protobuf::io;
 
-inline bool allow_known() {
-  static const bool v = getenv("VF_ALLOW_KNOWN") && *getenv("VF_ALLOW_KNOWN") == '1';
-  return v;
+// known findings are excluded from generation by default; VF_ALLOW_KNOWN=1 re-enables all of them,
+// VF_ALLOW_KNOWN=f5,f8 only the named ones
+inline bool allow_known(const char* which) {
+  const char* e = getenv("VF_ALLOW_KNOWN");
+  if (!e || !*e) return false;
+  return strcmp(e, "1") == 0 || strstr(e, which) != nullptr;
 }
 // protobuf logs "invalid UTF-8" for proto2 string fields in debug builds: keep the shard logs readable
 inline void quiet_protobuf() {
@@ -373,13 +376,14 @@ template <class T>
 void fill_elem(T& e, Gen& g) {
   fill(e, g);
   if constexpr (is_ptr<T>::value && !is_ld<T>::value) {
-    // known_f7: a null smart pointer to a scalar contributes no bytes as a packed element, so
-    // the element is lost on the way back; see the C11 report. Excluded unless VF_ALLOW_KNOWN=1.
+    // known_f8_null_scalar_ptr_element: a null smart pointer to a scalar contributes no bytes as
+    // a packed element / array slot, so the element is lost (or the array misaligned) on the way
+    // back; see the C11 report. Excluded unless VF_ALLOW_KNOWN names f8.
     if (!e) {
-      if (allow_known()) {
+      if (allow_known("f8")) {
         g.scalar_ptr_elem_null = true;
       } else {
-        vfz::label("excluded_known_f7");
+        vfz::label("excluded_known_f8");
         e.reset(new typename T::element_type());
         fill(*e, g);
       }
@@ -575,6 +579,23 @@ bool enc_empty(const T& v) {
     bool all = true;
     tuple_each(const_cast<T&>(v).vf_tie(), [&](auto& member, size_t) { all = all && enc_empty(member); });
     return all;
+  }
+}
+
+// For every member (or base) that BABYLON_SERIALIZABLE gives a per-field cached size (size
+// complexity COMPLEX) and that lives at a stable address below `v` (members of member aggregates
+// and of array elements; not what containers / smart pointers re-create): is its encoding empty?
+template <class T>
+void complex_member_emptiness(const T& v, std::vector<bool>& out) {
+  if constexpr (Aggregate<T>) {
+    tuple_each(const_cast<T&>(v).vf_tie(), [&](auto& member, size_t) {
+      using M = typename std::remove_reference<decltype(member)>::type;
+      if constexpr (babylon::SerializeTraits<M>::SERIALIZED_SIZE_COMPLEXITY == babylon::SerializationHelper::SERIALIZED_SIZE_COMPLEXITY_COMPLEX)
+        out.push_back(enc_empty(member));
+      complex_member_emptiness(member, out);
+    });
+  } else if constexpr (std::is_array<T>::value) {
+    for (auto& e : v) complex_member_emptiness(e, out);
   }
 }
 
@@ -894,7 +915,7 @@ struct Ptrs {
   VF_TIE(ui, uf, us, uagg, ume, uu, uv, ucs, si, ss, sagg, sme, sss, sv, vu, vsp)
 };
 
-// containers / arrays whose elements are smart pointers to scalars (see known_f7 in fill_elem)
+// containers / arrays whose elements are smart pointers to scalars (see known_f8 in fill_elem)
 struct ScalarPtrElems {
   std::vector<std::unique_ptr<int32_t>> vup;
   std::list<std::shared_ptr<double>> lsp;
